@@ -105,7 +105,8 @@ def judge_fails(pid, header, ops, rule=None):
     """does the real code violate `pid` on this history (by the judge)?"""
     try: lines = run_impl(header, ops)
     except Exception: return False
-    return any(p == pid and (rule is None or checklib.rule_matches(rule, ru)) for p, _, ru, _ in judge_store_trace(header, ops, lines))
+    pids = pid if isinstance(pid, (list, tuple, set)) else [pid]
+    return any(p in pids and (rule is None or checklib.rule_matches(rule, ru)) for p, _, ru, _ in judge_store_trace(header, ops, lines))
 
 def diverges(header, ops):
     try:
